@@ -336,6 +336,18 @@ pub fn run(ctx: &Ctx) {
          with a clear strictly inside the data followed by a reopen, or with more than 3 tree-reading calls (beyond the tiny cache's \
          capacity).",
     );
+    if std::env::var("HCV_ONLY_DISK").is_ok() {
+        // second build without the `sparse` feature (thorough tier): only the disk comparison
+        random_stage(ctx, "disk-nosparse", ctx.tier.pick(320, 10_000), csteps_strategy, |s: &Vec<CStep>, local| run_case(s, true, false, local));
+        return;
+    }
+    if let Ok(path) = std::env::var("HCV_NOSPARSE_EVIDENCE") {
+        if let Ok(txt) = std::fs::read_to_string(&path) {
+            if let Ok(v) = serde_json::from_str::<Value>(&txt) {
+                ctx.extra("nosparse_build_disk_stage", v.get("coverage").cloned().unwrap_or(Value::Null));
+            }
+        }
+    }
     random_stage(ctx, "memory-backends", ctx.tier.pick(8_000, 150_000), csteps_strategy, |s: &Vec<CStep>, local| run_case(s, false, false, local));
     random_stage(ctx, "cache-configurations", ctx.tier.pick(1_600, 30_000), csteps_strategy, |s: &Vec<CStep>, local| run_case(s, false, true, local));
     random_stage(ctx, "disk", ctx.tier.pick(320, 10_000), csteps_strategy, |s: &Vec<CStep>, local| run_case(s, true, false, local));
